@@ -328,6 +328,24 @@ def run(ctx):
     # MAFFT labels the leaves of its guide tree `<n>_<name>`: the prefix that is cut off is a number of ANY length followed by `_`
     # (the pattern is a literal: it is evaluated on three labels)
     import re as _re
+
+    def _prefix_cut(f_):
+        """the pattern is applied to the whole text with the empty replacement: `re.sub(_prefix_pattern, '', text)` or
+        `_prefix_pattern.sub('', text)` (the same call), no count"""
+        for c_ in ast.walk(f_):
+            if not isinstance(c_, ast.Call) or c_.keywords:
+                continue
+            cn_ = call_name(c_)
+            a_ = c_.args
+            if cn_ == "re.sub" and len(a_) == 3 and isinstance(a_[0], ast.Name) and a_[0].id == "_prefix_pattern":
+                rep_ = a_[1]
+            elif cn_ == "_prefix_pattern.sub" and len(a_) == 2:
+                rep_ = a_[0]
+            else:
+                continue
+            if isinstance(rep_, ast.Constant) and rep_.value == "":
+                return True
+        return False
     mf = ctx.src("application/mafft/app.py")
     pat = mf.module_assign("_prefix_pattern")
     lit = pat.args[0] if isinstance(pat, ast.Call) and call_name(pat) == "re.compile" and pat.args and isinstance(pat.args[0], ast.Constant) else None
@@ -339,7 +357,7 @@ def run(ctx):
         except _re.error:
             ok_pat = False
     ctx.ob("R6.mafft-tree-labels", "application/mafft/app.py", "<module>", f"_prefix_pattern = {ast.unparse(pat)[:40]}",
-           ok_pat and has_code(mf.func("MafftApp.evaluate"), "re.sub(_prefix_pattern, '', raw_newick)"),
+           ok_pat and _prefix_cut(mf.func("MafftApp.evaluate")),
            "with ten or more sequences the running number has two digits: a pattern for one digit leaves `1` in front of the index (leaf 10_9 "
            "becomes 19)", 1)
     # the polling join gives up only on a job that is NOT finished: the TimeoutError is raised under the fact
